@@ -281,6 +281,24 @@ def gen_thresholds(out):
     return obs
 
 
+def gen_induction(out):
+    """Unbounded induction over limb sequences: the per-limb contract of scalar_mul / scalar_add (proved by
+    Kani for all u64 operands) composes, for EVERY length, to the natural-number contract of the vector
+    operation.  Pure mathematics over the contracts; no data from /repo."""
+    text = open(os.path.join(os.path.dirname(os.path.dirname(os.path.abspath(__file__))), "verus", "limb_chain_induction.rs")).read()
+    out.append(text)
+    names = re.findall(r"proof fn (\w+)", text)
+    desc = {
+        "lemma_small_mul_chain": "for every n: out_i + 2^64 c_{i+1} == x_i y + c_i for all i < n  ==>  val(out) + 2^(64n) c_n == val(x) y + c_0",
+        "lemma_val_push": "val(s.push(t)) == val(s) + 2^(64 |s|) t",
+        "lemma_small_mul_total": "loop result with the final carry pushed (or omitted when zero) is exactly val(x) * y + carry_in, any length",
+        "lemma_val_trailing_zero": "a trailing zero limb does not change the value (normalize)",
+        "lemma_val_shl_limbs": "k zero limbs in front multiply the value by 2^(64k) (shl_limbs), any k and length",
+        "lemma_distribute": "distributivity helper",
+    }
+    return [(n, desc.get(n, n)) for n in names]
+
+
 def generate(path, which=("lemire", "small", "bellerophon", "log2")):
     out = [PRELUDE]
     obs = []
@@ -294,6 +312,8 @@ def generate(path, which=("lemire", "small", "bellerophon", "log2")):
         obs += gen_log2(out)
     if "thresholds" in which:
         obs += gen_thresholds(out)
+    if "induction" in which:
+        obs += gen_induction(out)
     out.append("} // verus!\nfn main() {}\n")
     with open(path, "w") as f:
         f.write("".join(out))
